@@ -27,7 +27,7 @@ NoCur == [k |-> "", w |-> {}]
 Woken(p) == {x \in Procs \ {p} : pc[x] = "parked" /\ ~Finished(x) /\ fnote[x] = "none" /\ fnote'[x] # "none"}
 Kind(p) == CASE pc[p] = "start" -> (IF IsRecv(Op(p)) THEN "poll" ELSE "call")
              [] pc[p] = "push" -> "send.end"
-             [] pc[p] = "parked" -> (IF fnote[p] # "none" THEN "poll" ELSE "cancel")
+             [] pc[p] = "parked" -> (IF res'[p] = RCancelled THEN "cancel" ELSE "poll")   \* RecvCancel | RecvWake
              [] OTHER -> "?"
 \* the result the finished operation returned, read off the strict monitor's input: the value given to Monitors
 Returned(p) ==
